@@ -225,6 +225,13 @@ pub fn decode(shape: &Shape, cells: &[BigInt]) -> Option<RV> {
             }
             Some(RV::Pair(int_of_cells(*t, &cells[..n])?, int_of_cells(*t, &cells[n..])?))
         }
+        Shape::IntBool(t) => {
+            let n = t.n_cells();
+            if cells.len() != n + 1 || !(cells[n].is_zero() || cells[n].is_one()) {
+                return None;
+            }
+            Some(RV::Pair(int_of_cells(*t, &cells[..n])?, cells[n].clone()))
+        }
         Shape::Opt(t) | Shape::OptNz(t) => {
             let n = t.n_cells();
             if cells.len() != 1 + n {
@@ -324,7 +331,7 @@ pub fn coq_case(d: &Done) -> String {
     )
 }
 
-const PRELUDE: &str = "#[allow(unused_imports)]\nuse core::traits::{DivRem, TryInto, Into};\n#[allow(unused_imports)]\nuse core::option::OptionTrait;\n";
+const PRELUDE: &str = "#[allow(unused_imports)]\nuse core::traits::{DivRem, TryInto, Into};\n#[allow(unused_imports)]\nuse core::option::OptionTrait;\n#[allow(unused_imports)]\nuse core::num::traits::{WrappingAdd, WrappingSub, WrappingMul, OverflowingAdd, OverflowingSub, OverflowingMul, CheckedAdd, CheckedSub, CheckedMul, SaturatingAdd, SaturatingSub, SaturatingMul};\n";
 
 fn check_diags(db: &RootDatabase, inputs: &[CrateInput]) -> Result<(), String> {
     let mut s = String::new();
@@ -385,6 +392,11 @@ pub fn eval_chunk(dir: &str, idx: usize, cases: Vec<Case>) -> Result<Vec<Done>, 
         }
         if let Some((params, body, _)) = &c.g {
             writeln!(twins, "{f}fn g_{k}({params}) -> {} {{ {body} }}", c.rty).unwrap();
+        }
+        for (name, def, _) in &c.fns {
+            if seen_fn.insert(name.clone(), ()).is_none() {
+                writeln!(twins, "{f}{def}").unwrap();
+            }
         }
     }
     let cdir = format!("{dir}/c{idx:03}");
@@ -481,6 +493,10 @@ pub fn eval_chunk(dir: &str, idx: usize, cases: Vec<Case>) -> Result<Vec<Done>, 
             if let Some((_, _, gargs)) = &c.g {
                 fns.push((format!("::g_{k}"), to_args(gargs), names.1));
             }
+            const EXTRA: [[&str; 2]; 2] = [["f0/fold", "f1/fold"], ["f0/nofold", "f1/nofold"]];
+            for (i, (name, _, fargs)) in c.fns.iter().enumerate().take(2) {
+                fns.push((format!("::{name}"), to_args(fargs), EXTRA[skip as usize][i]));
+            }
             for (fname, args, vname) in fns {
                 let rr = run_one(&runner, &fname, args, &c.shape);
                 runs[k].push((vname, rr));
@@ -547,7 +563,11 @@ pub fn eval_chunk(dir: &str, idx: usize, cases: Vec<Case>) -> Result<Vec<Done>, 
                 "args/nofold" => 1,
                 "lit/fold" => 2,
                 "lit/nofold" => 3,
-                _ => 4,
+                "const/use" => 4,
+                "f0/fold" => 5,
+                "f0/nofold" => 6,
+                "f1/fold" => 7,
+                _ => 8,
             });
             Done { c1: c1.remove(&k), c2: c2v, runs: rs, g_size: g_size[k], case }
         })
